@@ -5,6 +5,7 @@ package main
 
 import (
 	"fmt"
+	"go/token"
 	"go/types"
 	"regexp"
 	"sort"
@@ -276,6 +277,10 @@ func runC03(cx *CheckCtx) {
 	// the 2/3+1 of the notary-disabled mode is collected by votes: the vote protocol (member
 	// voter, threshold, distinct counting, window) is part of "inert without its witnesses"
 	voteProtocol(cx, []string{"Cheque", "AlphabetUpdate", "SetConfig", "InnerRingCandidateRemove"})
+	// the "admin" some NNS gates name is the admin of the *current* registration: a transfer and a
+	// (re-)registration both start without one (shared with C11)
+	nnsTransferResetsAdmin(cx, "transfer-resets-admin")
+	nnsRegisterStartsWithoutAdmin(cx, "register-without-admin")
 	runC17Common(cx, w)
 	cx.floor("nonsafe_methods", 68)
 	cx.floor("safe_methods", 70)
@@ -314,7 +319,14 @@ func runC03(cx *CheckCtx) {
 				continue
 			}
 			cx.count("verify_methods", 1)
-			a := cx.analyze(&Query{Name: "gates", Root: m.Fn})
+			// comparisons between two threshold quotients (⌊2n/3⌋ against ⌊n/2⌋) are kept as facts: a verify
+			// method may leave out the second account where the two are one
+			a := cx.analyze(&Query{Name: "gates+quo", Root: m.Fn, WantCmp: func(x, y *Term) bool {
+				hasQuo := func(t *Term) bool {
+					return t != nil && t.contains(func(z *Term) bool { return z.Op == "quo" || (z.Op == "bin" && strings.Contains(z.Name, "/")) })
+				}
+				return hasQuo(x) && hasQuo(y)
+			}})
 			for _, ex := range a.Exits() {
 				if len(ex.Results) == 1 {
 					a.condLits(ex.Results[0], true, 0) // interns the literals of the result
@@ -362,10 +374,22 @@ func runC03(cx *CheckCtx) {
 				if st.bottom {
 					continue
 				}
+				// (where the state knows ⌊2n/3⌋ = ⌊n/2⌋ for the key list, the 2/3+1 and the majority accounts are one
+				// account: "asked and absent, or the thresholds coincide" is accepted for an account as long as some
+				// documented account was asked outright)
+				co := coincideLits(a)
+				askedOutright := false
+				for _, cls := range allowed {
+					for _, l := range witnessLits(a, []string{cls}) {
+						if a.holdsAt(st, -l) {
+							askedOutright = true
+						}
+					}
+				}
 				for _, cls := range allowed {
 					found := false
 					for _, l := range witnessLits(a, []string{cls}) {
-						if a.holdsAt(st, -l) {
+						if a.holdsAt(st, -l) || (askedOutright && len(co) > 0 && a.holdsAt(st, append([]int32{-l}, co...)...)) {
 							found = true
 						}
 					}
@@ -497,4 +521,34 @@ func gateRule(cx *CheckCtx, m *Method) (req [][]string, inTable bool, effs []*Si
 		}
 	}
 	return
+}
+
+// coincideLits: the literals ⌊2·len(K)/3⌋ = ⌊len(K)/2⌋ (with or without the +1 on both sides) for the lists
+// the analysis talks about: for such a size the two multi-signature accounts over K are the same account.
+func coincideLits(a *Analysis) []int32 {
+	tb := a.tb
+	seen := map[*Term]bool{}
+	var lens []*Term
+	for _, l := range a.lt.lits {
+		for _, t := range []*Term{l.A, l.B} {
+			if t == nil {
+				continue
+			}
+			t.walk(func(x *Term) bool {
+				if x.Op == "len" && !seen[x] {
+					seen[x] = true
+					lens = append(lens, x)
+				}
+				return true
+			})
+		}
+	}
+	one := tb.constInt(1)
+	var out []int32
+	for _, n := range lens {
+		t23 := tb.binop(token.QUO, tb.binop(token.MUL, n, tb.constInt(2), intType), tb.constInt(3), intType)
+		t12 := tb.binop(token.QUO, n, tb.constInt(2), intType)
+		out = append(out, a.eqLit(t23, t12), a.eqLit(tb.binop(token.ADD, t23, one, intType), tb.binop(token.ADD, t12, one, intType)))
+	}
+	return out
 }
